@@ -50,14 +50,19 @@
 //! is reported as not exhaustive with the depth that was completed.
 //!
 //! Besides the history space (`rtr.histories`) and the scale space
-//! (`rtr.scale`) there are four SEQUENCE spaces, enumerated in full without
+//! (`rtr.scale`) there are five SEQUENCE spaces, enumerated in full without
 //! merging states, every finished client step of a sequence judged by the
 //! same three oracles against the End of Data the client consumed in it
 //! (witness `seq space=.. ops=..`, cut after the judged step; operations
 //! `J<delta>{k|d|n}{c|u}` source serial += delta mod 2^32 in the same session
 //! with the diff base kept / dropped or into a new session, data changed /
 //! unchanged · `N` notify · `SA`/`SB` client A/B steps · `SAB` both step
-//! concurrently · `XA@k` A's step future is dropped at its k-th Pending):
+//! concurrently · `XA@k` A's step future is dropped at its k-th Pending ·
+//! `T` the source reports other timing values from now on, `H` it stops (again:
+//! resumes) serving diffs, `O` its iterators yield the next of the three
+//! orders — session, serial and data stay where they are in all three · `RA`
+//! client A gives its connection up and comes back over a new one to the
+//! same `Server::run` with its state and target):
 //!
 //! * `rtr.serial_distance` — the serial distance between the client's stored
 //!   state and the state End of Data names (+1, +2, 2^31-1, 2^31, 2^31+1, -2,
@@ -69,7 +74,12 @@
 //!   returns an error, then retry / reconnect: what the rejected step left
 //!   behind must not spoil a later finished step;
 //! * `rtr.abandoned_step` — the step future dropped while Pending at every
-//!   await point (narrow pipes: inside PDUs), then stepped again.
+//!   await point (narrow pipes: inside PDUs), then stepped again;
+//! * `rtr.unmoved_state` — what the source REPORTS (timing, availability of
+//!   diffs, iteration order) changes while its state stays, met on ONE
+//!   connection that has already carried exchanges ending at that very state
+//!   and on new connections to the same server: nothing kept from an earlier
+//!   exchange by client, connection or server may stand in for the source.
 //!
 //! And the CONSTRUCTION-ROUTE space `rtr.construction_routes` (witness
 //! `routes route=.. v=.. client=.. link=.. rev=.. [step=..]`): the source's
@@ -436,9 +446,22 @@ struct SrcInner {
     armed_after_timing: Option<u8>,
     /// accessor sweep on the serving side (see `pdu_sweep`, `update`, `restart`)
     api_faults: Vec<String>,
+    /// What the source reports can change while its STATE stays where it is
+    /// (`rtr.unmoved_state`): the operator reconfigures the intervals — the
+    /// timing reported for set S is `TIMINGS[(S + retimed) % 8]` (0 outside
+    /// that space, `T` adds 1) ...
+    retimed: u8,
+    /// ... or the source stops / resumes serving diffs: while set, `diff()`
+    /// answers `None` for every state, its own current one included (`H`).
+    /// (The third such change, the iteration order, is `order` itself: `O`.)
+    hide_diffs: bool,
 }
 
 impl SrcInner {
+    /// The timing the source reports while it holds set `set`, as things
+    /// stand now. The retiming events happen between client steps only, so
+    /// right after a step this is what the source said during the step.
+    fn timing_for(&self, set: u8) -> (u32, u32, u32) { timing_of(set.wrapping_add(self.retimed) % TIMINGS.len() as u8) }
     fn remember(&mut self) {
         if let Some(old) = self.record.insert((self.session, self.serial), self.cur) {
             if old != self.cur { self.collision = true }
@@ -648,6 +671,7 @@ impl PayloadSource for Source {
     fn diff(&self, state: State) -> Option<(State, DiffIter)> {
         let mut s = self.0.lock().unwrap();
         s.tick("diff");
+        if s.hide_diffs { return None }
         if state.session() != s.session { return None }
         let mut path: Vec<u8> = s.path_from(state.serial().0)?;
         path.push(s.cur);
@@ -675,7 +699,7 @@ impl PayloadSource for Source {
         s.timing_asked_in = Some((s.session, s.serial));
         let at = (s.session, s.serial);
         s.timing_calls.push(at);
-        let t = timing_of(s.cur);
+        let t = s.timing_for(s.cur);
         Timing { refresh: t.0, retry: t.1, expire: t.2 }
     }
 }
@@ -1430,7 +1454,7 @@ fn initial_source(cfg: &Cfg) -> SrcInner {
         chain_serial: if cfg.init == Init::TwoBehindNoDiffs { vec![ROOT_SERIAL0 + 1] } else { vec![ROOT_SERIAL0, ROOT_SERIAL0 + 1] },
         record: BTreeMap::new(), epoch: 0, style: cfg.style, order: cfg.order, cap: cfg.cap as usize, collision: false,
         armed: None, calls: 0, fired: None, timing_asked_in: None,
-        timing_calls: Vec::new(), armed_after_timing: None, api_faults: Vec::new(),
+        timing_calls: Vec::new(), armed_after_timing: None, api_faults: Vec::new(), retimed: 0, hide_diffs: false,
     };
     for (k, set) in ROOT_SETS.iter().enumerate() { s.record.insert((SESSION0, ROOT_SERIAL0 + k as u32), *set); }
     s
@@ -1707,9 +1731,9 @@ async fn exec_async(cfg: Cfg, hist: Vec<Ev>) -> Exec {
                                         (e.1, e.2), e.0, snap.data.render(), want.render())));
                                 }
                                 let judged = timing_calls.get(i) == Some(&(e.1, e.2));
-                                if e.0 >= 1 && judged && snap.timing != timing_of(set) {
+                                if e.0 >= 1 && judged && snap.timing != s.timing_for(set) {
                                     verdicts.push(("C06.timing.equals_source", format!(
-                                        "run, update #{i}: version {}: client reports timing {:?}, source's is {:?} (exchange: {transcript})", e.0, snap.timing, timing_of(set))));
+                                        "run, update #{i}: version {}: client reports timing {:?}, source's is {:?} (exchange: {transcript})", e.0, snap.timing, s.timing_for(set))));
                                 }
                             }
                         }
@@ -1751,9 +1775,9 @@ async fn exec_async(cfg: Cfg, hist: Vec<Ev>) -> Exec {
                             // asked for: judged only if timing() was asked
                             // while the source was in that very state.
                             let timing_judged = timing_asked_in.is_none() || timing_asked_in == state_after;
-                            if version >= 1 && timing_judged && reported_timing != Some(timing_of(set)) {
+                            if version >= 1 && timing_judged && reported_timing != Some(s.timing_for(set)) {
                                 verdicts.push(("C06.timing.equals_source", format!(
-                                    "version {version}: client reports timing {reported_timing:?}, source's is {:?} (exchange: {transcript})", timing_of(set))));
+                                    "version {version}: client reports timing {reported_timing:?}, source's is {:?} (exchange: {transcript})", s.timing_for(set))));
                             }
                         }
                     }
@@ -2121,6 +2145,13 @@ fn scale_space(ctx: &Ctx, thorough: bool) {
 // and who else talks to the same server. Every client step of a sequence
 // that finishes is judged by the oracles of the property, against the state
 // named in the End of Data the client consumed in that step.
+//
+// In the history space and in the first four sequence spaces everything the
+// source reports is a function of its state (the timing triple goes with the
+// set, the set with the serial), and its canonical key takes "the server
+// connection keeps nothing between queries but the version" for granted.
+// `rtr.unmoved_state` drops both: the source's answers change while the
+// state stays, on connections with a past.
 
 /// What the harness does with a client whose step failed or was abandoned.
 #[derive(Clone, Copy, Debug, PartialEq, Eq, Hash, PartialOrd, Ord)]
@@ -2147,6 +2178,19 @@ enum SOp {
     /// the client's step future is polled until it has returned Pending k
     /// times and is then dropped
     Cancel(u8, u16),
+    /// the source reports other timing values from now on; session, serial
+    /// and data stay where they are (`rtr.unmoved_state`)
+    Retime,
+    /// the source stops serving diffs (`diff()` is `None` for every state,
+    /// its current one included) or, if it had stopped, resumes; the state stays
+    Hide,
+    /// the source's iterators yield their items in the next of the three
+    /// orders from now on; the state stays
+    Reorder,
+    /// the client gives up its connection although nothing failed and comes
+    /// back over a new one to the same `Server::run`, with `client.state()`
+    /// and the target, the way the `Client::new` documentation prescribes
+    Reconnect(u8),
 }
 
 impl SOp {
@@ -2158,11 +2202,15 @@ impl SOp {
             SOp::Step(i) => format!("S{}", (b'A' + i) as char),
             SOp::Both => "SAB".into(),
             SOp::Cancel(i, k) => format!("X{}@{k}", (b'A' + i) as char),
+            SOp::Retime => "T".into(), SOp::Hide => "H".into(), SOp::Reorder => "O".into(),
+            SOp::Reconnect(i) => format!("R{}", (b'A' + i) as char),
         }
     }
     fn parse(s: &str) -> Option<SOp> {
         match s {
             "N" => Some(SOp::Notify), "SA" => Some(SOp::Step(0)), "SB" => Some(SOp::Step(1)), "SAB" => Some(SOp::Both),
+            "T" => Some(SOp::Retime), "H" => Some(SOp::Hide), "O" => Some(SOp::Reorder),
+            "RA" => Some(SOp::Reconnect(0)), "RB" => Some(SOp::Reconnect(1)),
             _ if s.starts_with('X') => {
                 let (who, k) = s[1..].split_once('@')?;
                 let i = match who { "A" => 0, "B" => 1, _ => return None };
@@ -2208,10 +2256,12 @@ struct Scn {
     /// client A's target rejects: (true: the n-th `apply` / false: the n-th `push_update`, n, error)
     fail: Option<(bool, u32, u8)>,
     cont: Cont,
+    /// the source's `retimed` at the root (which timing triple goes with which set)
+    shift: u8,
 }
 
 const FAIL_KINDS: [PayloadError; 4] = [PayloadError::Corrupt, PayloadError::DuplicateAnnounce, PayloadError::Internal, PayloadError::UnknownWithdraw];
-const SEQ_SPACES: [&str; 4] = ["dist", "pair", "fail", "cancel"];
+const SEQ_SPACES: [&str; 5] = ["dist", "pair", "fail", "cancel", "unmoved"];
 
 impl Scn {
     fn render(&self) -> String { self.render_upto(self.ops.len()) }
@@ -2219,19 +2269,21 @@ impl Scn {
     fn render_upto(&self, n: usize) -> String {
         let clients: Vec<String> = self.clients.iter().map(|c| format!("{}/{}/{}/{}", c.civ, c.limit, c.route.name(), if c.current { "current" } else { "none" })).collect();
         let ops: Vec<String> = self.ops[..n].iter().map(|o| o.render()).collect();
-        format!("seq space={} base={} style={} order={} link={} clients={} cont={}{} ops={}", self.space, self.base,
+        format!("seq space={} base={} style={} order={} link={} clients={} cont={}{}{} ops={}", self.space, self.base,
             match self.style { Style::Net => "net", Style::Chained => "chained" }, self.order.name(), self.link.name(), clients.join(","),
             match self.cont { Cont::SameConn => "same", Cont::Reconnect => "reconnect" },
             match self.fail { Some((a, n, k)) => format!(" fail={}#{n}:{:?}", if a { "apply" } else { "push" }, FAIL_KINDS[k as usize]), None => String::new() },
+            if self.shift != 0 { format!(" shift={}", self.shift) } else { String::new() },
             ops.join("."))
     }
     fn parse(s: &str) -> Option<Scn> {
-        let mut scn = Scn { space: "dist", base: 0, style: Style::Net, order: Order::Grouped, link: Transport::Roomy, clients: vec![], ops: vec![], fail: None, cont: Cont::Reconnect };
+        let mut scn = Scn { space: "dist", base: 0, style: Style::Net, order: Order::Grouped, link: Transport::Roomy, clients: vec![], ops: vec![], fail: None, cont: Cont::Reconnect, shift: 0 };
         for tok in s.split_whitespace().skip(1) {
             let (k, v) = tok.split_once('=')?;
             match k {
                 "space" => scn.space = SEQ_SPACES.iter().copied().find(|x| *x == v)?,
                 "base" => scn.base = v.parse().ok()?,
+                "shift" => scn.shift = v.parse().ok()?,
                 "style" => scn.style = match v { "net" => Style::Net, "chained" => Style::Chained, _ => return None },
                 "order" => scn.order = ORDERS.iter().copied().find(|o| o.name() == v)?,
                 "link" => scn.link = TRANSPORTS.iter().copied().find(|o| o.name() == v)?,
@@ -2319,6 +2371,8 @@ struct SeqStep {
     wrote: bool,
     /// the connection was in step with the server when the step began
     judged: bool,
+    /// the connection had carried a completed exchange before this step
+    reused: bool,
 }
 
 #[derive(Clone, Debug, PartialEq, Eq)]
@@ -2401,9 +2455,9 @@ fn seq_judge(op: usize, who: u8, src: &Source, conn: &Conn, pre: &Pre, result: S
                             "state {:?} (source set #{set}) at version {}: target holds {} but the source reported {} (previous data {}, stored state before the step {:?}, exchange: {transcript})",
                             (e.1, e.2), e.0, data_after.render(), want.render(), pre.data.render(), pre.state)));
                     }
-                    if e.0 >= 1 && reported_timing != Some(timing_of(set)) {
+                    if e.0 >= 1 && reported_timing != Some(s.timing_for(set)) {
                         verdicts.push(("C06.timing.equals_source", format!(
-                            "version {}: client reports timing {reported_timing:?}, source's is {:?} (exchange: {transcript})", e.0, timing_of(set))));
+                            "version {}: client reports timing {reported_timing:?}, source's is {:?} (exchange: {transcript})", e.0, s.timing_for(set))));
                     }
                 }
             }
@@ -2425,7 +2479,7 @@ fn seq_judge(op: usize, who: u8, src: &Source, conn: &Conn, pre: &Pre, result: S
         }
     };
     let changed = state_after != pre.state || *data_after != pre.data;
-    SeqStep { op, who, result, cancelled, pendings, class, transcript, changed, distance, verdicts, fired: None, wrote: conn.sent.load(Ordering::Relaxed) > pre.sent, judged: in_sync }
+    SeqStep { op, who, result, cancelled, pendings, class, transcript, changed, distance, verdicts, fired: None, wrote: conn.sent.load(Ordering::Relaxed) > pre.sent, judged: in_sync, reused: conn.ok_steps > 0 }
 }
 
 fn step_result(r: Result<Option<Result<(), std::io::Error>>, tokio::time::error::Elapsed>) -> (StepResult, bool) {
@@ -2450,7 +2504,7 @@ async fn seq_async(scn: Scn) -> SeqOut {
         session: SESSION0, serial: scn.base, cur: SEQ_ROOT_SET, chain: Vec::new(), chain_serial: Vec::new(),
         record: BTreeMap::from([((SESSION0, scn.base), SEQ_ROOT_SET)]), epoch: 0, style: scn.style, order: scn.order, cap: SEQ_CAP as usize,
         collision: false, armed: None, calls: 0, fired: None, timing_asked_in: None, timing_calls: Vec::new(), armed_after_timing: None,
-        api_faults: Vec::new(),
+        api_faults: Vec::new(), retimed: scn.shift, hide_diffs: false,
     })));
     let mut notify = NotifySender::new();
     let hub = hub(&src, &notify);
@@ -2485,6 +2539,21 @@ async fn seq_async(scn: Scn) -> SeqOut {
                 s.jump(delta, keep, new_session, set);
             }
             SOp::Notify => { notify.notify(); settle().await; }
+            SOp::Retime => { let mut s = src.0.lock().unwrap(); s.retimed = (s.retimed + 1) % TIMINGS.len() as u8; }
+            SOp::Hide => { let mut s = src.0.lock().unwrap(); s.hide_diffs = !s.hide_diffs; }
+            SOp::Reorder => { let mut s = src.0.lock().unwrap(); s.order = ORDERS[(ORDERS.iter().position(|o| *o == s.order).unwrap() + 1) % ORDERS.len()]; }
+            SOp::Reconnect(i) => {
+                let i = i as usize;
+                if i >= conns.len() { machinery.push(format!("operation {} names a client the scenario does not have", op.render())); break }
+                let state = conns[i].client.state();
+                let old = conns.remove(i);
+                let target = old.client.into_target();
+                settle().await;
+                let c = connect_via(Some(&hub), &cfgs[i], &src, &notify, target, state).await;
+                conns.insert(i, c);
+                tainted[i] = false;
+                desync[i] = false;
+            }
             SOp::Step(i) | SOp::Cancel(i, _) => {
                 let i = i as usize;
                 if i >= conns.len() { machinery.push(format!("operation {} names a client the scenario does not have", op.render())); break }
@@ -2739,7 +2808,7 @@ fn distance_space(ctx: &Ctx, thorough: bool) {
     let mut wide: Vec<Vec<SOp>> = singles.clone(); wide.extend(doubles.iter().cloned());
     let mut scns: Vec<Scn> = Vec::new();
     let mk = |base: u32, style: Style, civ: u8, limit: u8, route: Route, current: bool, link: Transport, ops: Vec<SOp>| Scn {
-        space: "dist", base, style, order: Order::Grouped, link, clients: vec![SClient { civ, limit, route, current }], ops, fail: None, cont: Cont::Reconnect };
+        space: "dist", base, style, order: Order::Grouped, link, clients: vec![SClient { civ, limit, route, current }], ops, fail: None, cont: Cont::Reconnect, shift: 0 };
     // (1) the main product: version 2, step(), roomy pipes, client current at the root
     for &base in &BASES {
         let styles: &[Style] = if thorough { &[Style::Net, Style::Chained] } else { &[Style::Net] };
@@ -2811,7 +2880,7 @@ fn pair_space(ctx: &Ctx, thorough: bool) {
             let (ra, rb) = ([Route::Step, Route::UpdateApply][n % 2], [Route::Step, Route::UpdateApply, Route::ResetApply][(n / 2) % 3]);
             scns.push(Scn { space: "pair", base: 1000, style: Style::Chained, order, link,
                 clients: vec![SClient { civ: va, limit: 2, route: ra, current: a_current }, SClient { civ: vb, limit: 2, route: rb, current: true }],
-                ops: ops.clone(), fail: None, cont: [Cont::Reconnect, Cont::SameConn][(n / 6) % 2] });
+                ops: ops.clone(), fail: None, cont: [Cont::Reconnect, Cont::SameConn][(n / 6) % 2], shift: 0 });
         }
     }}}}
     let tally = scns.par_iter().map(|scn| seq_run(scn, |out| {
@@ -2841,7 +2910,7 @@ fn failure_space(ctx: &Ctx, thorough: bool) {
         for a in &gaps { for b in &gaps { for c in &gaps {
             let mut ops = rounds(&[a, b, c]); ops.push(SOp::Step(0)); ops.push(SOp::Step(0));
             bases.push(Scn { space: "fail", base: 1000, style: Style::Net, order: ORDERS[(civ + limit) as usize % 3], link: Transport::Roomy,
-                clients: vec![SClient { civ, limit, route, current }], ops, fail: None, cont: Cont::Reconnect });
+                clients: vec![SClient { civ, limit, route, current }], ops, fail: None, cont: Cont::Reconnect, shift: 0 });
         }}}
     }}}
     let fired_then_ok = |out: &SeqOut| {
@@ -2885,7 +2954,7 @@ fn cancel_space(ctx: &Ctx, thorough: bool) {
             let step_at: Vec<usize> = ops.iter().enumerate().filter(|(_, o)| o.is_step()).map(|(i, _)| i).collect();
             for r in 0..3 {
                 bases.push((Scn { space: "cancel", base: 1000, style: Style::Net, order: ORDERS[(civ as usize + r) % 3], link,
-                    clients: vec![SClient { civ, limit, route, current }], ops: ops.clone(), fail: None, cont }, step_at[r]));
+                    clients: vec![SClient { civ, limit, route, current }], ops: ops.clone(), fail: None, cont, shift: 0 }, step_at[r]));
             }
         }}}
     }}}}}
@@ -2909,6 +2978,139 @@ fn cancel_space(ctx: &Ctx, thorough: bool) {
     }).reduce(SeqTally::default, |mut a, b| { a.absorb(b); a });
     let n = tally.evals;
     seq_report(ctx, &sp, tally, 1000, &format!("{} (sequence, abandoned step) pairs x every await point of that step = {n} executions", bases.len()));
+}
+
+/// What the source does between two client steps in `rtr.unmoved_state`.
+fn unmoved_gaps(thorough: bool) -> Vec<Vec<SOp>> {
+    let up = |keep: bool, new_session: bool, change: bool| SOp::Jump { delta: 1, keep, new_session, change };
+    let mut v = vec![
+        vec![],
+        vec![SOp::Retime],
+        vec![SOp::Hide],
+        vec![SOp::Reorder],
+        vec![SOp::Notify],
+        vec![SOp::Retime, SOp::Notify],
+        vec![up(true, false, true)],
+        vec![up(true, false, false)],
+        vec![up(false, false, true)],
+        // a new session that begins at the very serial the old one stood at, with the same data: only the session id and the timing differ
+        vec![SOp::Jump { delta: 0, keep: false, new_session: true, change: false }, SOp::Retime],
+    ];
+    if thorough {
+        v.push(vec![SOp::Retime, SOp::Hide]);
+        v.push(vec![SOp::Retime, SOp::Reorder]);
+        v.push(vec![up(true, false, true), SOp::Retime]);
+        v.push(vec![SOp::Retime, up(true, false, false)]);
+        v.push(vec![SOp::Hide, SOp::Notify]);
+        v.push(vec![up(false, true, true)]);
+    }
+    v
+}
+
+/// `rtr.unmoved_state`.
+///
+/// Everywhere else what the source reports changes only together with its
+/// state: another set, another serial, and the timing triple that goes with
+/// the set. Here the source's answers change while session and serial stay:
+/// other timing values, diffs no longer (or again) available, another
+/// iteration order. And the client meets them on a connection that has
+/// already carried completed exchanges ending at that very state as well as
+/// on a new connection to the same server. Whatever client, connection or
+/// server keep from one exchange to the next (an End of Data kept for
+/// "the same state", timing adopted only when the state moves, a remembered
+/// "no diff from there") shows in the next finished step: the oracles are the
+/// three clauses, the timing being the source's at the time of the exchange.
+fn unmoved_space(ctx: &Ctx, thorough: bool) {
+    let rounds_n = 3;
+    let sp = ctx.space("rtr.unmoved_state",
+        "what the source REPORTS changes while its state (session, serial) stays: every sequence root . (gap . client op) x 3 [thorough: + x 4 over the quick gaps for six roots] executed in full on the real Client and one real Server::run (no state merging); gap = nothing / T the source reports other timing values from now on / H the source stops serving diffs, its current state included (again: resumes) / O its iterators yield the items in the next of the three orders / N notify / T.N / update +1 with the diff base kept, data changed / the same, data unchanged / update +1 with the diff bases dropped / a new session at the SAME serial with the same data and other timing [thorough: + T.H, T.O, update.T, T.update(data unchanged), H.N, a new session at serial +1]; client op = a step on the connection as it is (ONE connection carries all the exchanges as long as none fails and the peer does not hang up) / the client gives the connection up and comes back over a new one to the same Server::run with client.state() and the target, then steps; roots: client initial version/proxy limit 2/2, 1/1, 0/0, 2/1, 1/2 [thorough: all nine] x route step(), update()+apply(), reset()+apply() x client current or without state at the root; the timing triple that goes with a set is shifted so that the root's is neither the client's default nor one that makes the peer hang up; EVERY finished step is judged: state == End of Data state, data == the source's set for that state, timing (version >= 1) == what the source reports at the time of the exchange; non-trivial = sequences with a finished step on a connection that had completed an exchange before, which left the client's state and data where they were although the source had changed its timing, its diff availability or its iteration order since that client's previous step");
+    let gaps = unmoved_gaps(thorough);
+    let quick_gaps = unmoved_gaps(false);
+    let versions: Vec<(u8, u8)> = if thorough { (0..=2u8).flat_map(|c| (0..=2u8).map(move |l| (c, l))).collect() } else { vec![(2, 2), (1, 1), (0, 0), (2, 1), (1, 2)] };
+    // a round: the gap, then the step on the same connection or after a voluntary reconnect
+    let round_menu = |gaps: &[Vec<SOp>]| -> Vec<Vec<SOp>> {
+        let mut m = Vec::new();
+        for g in gaps { for reconnect in [false, true] {
+            let mut r = g.clone();
+            if reconnect { r.push(SOp::Reconnect(0)) }
+            r.push(SOp::Step(0));
+            m.push(r);
+        }}
+        m
+    };
+    // root timing: set 6 + 3 -> TIMINGS[1] (30, 100, 100)
+    const SHIFT: u8 = 3;
+    // The sequences are numbered, not stored: sequence i of a root with menu
+    // m and r rounds takes round (i / m^k) % m as its k-th round from the end.
+    struct Root { n: usize, civ: u8, limit: u8, route: Route, current: bool, wide: bool, rounds: usize }
+    let menus = [round_menu(&quick_gaps), round_menu(&gaps)];
+    let count = |r: &Root| menus[r.wide as usize].len().pow(r.rounds as u32);
+    let scn_of = |r: &Root, mut i: usize| -> Scn {
+        let menu = &menus[r.wide as usize];
+        let mut picks = vec![0usize; r.rounds];
+        for k in (0..r.rounds).rev() { picks[k] = i % menu.len(); i /= menu.len(); }
+        let mut ops = Vec::new();
+        for p in picks { ops.extend_from_slice(&menu[p]) }
+        Scn { space: "unmoved", base: 1000, style: [Style::Net, Style::Chained][r.n % 2], order: ORDERS[r.n % 3], link: Transport::Roomy,
+            clients: vec![SClient { civ: r.civ, limit: r.limit, route: r.route, current: r.current }], ops, fail: None, cont: Cont::Reconnect, shift: SHIFT }
+    };
+    let mut roots: Vec<Root> = Vec::new();
+    for &(civ, limit) in &versions { for route in ROUTES { for current in [true, false] {
+        roots.push(Root { n: roots.len(), civ, limit, route, current, wide: true, rounds: rounds_n });
+    }}}
+    let three_roots = roots.len();
+    if thorough {
+        for (civ, limit, route, current) in [(2u8, 2u8, Route::Step, true), (1, 1, Route::Step, true), (2, 1, Route::UpdateApply, true), (2, 2, Route::ResetApply, true),
+                                             (1, 2, Route::Step, false), (0, 0, Route::Step, true)] {
+            roots.push(Root { n: roots.len(), civ, limit, route, current, wide: false, rounds: 4 });
+        }
+    }
+    let four_n: usize = roots[three_roots..].iter().map(count).sum();
+    let tasks: Vec<(usize, usize)> = roots.iter().enumerate().flat_map(|(r, root)| (0..count(root)).map(move |i| (r, i))).collect();
+    // what the source changed without moving since the client's previous step
+    let quiet_before = |scn: &Scn, op: usize| -> (String, bool) {
+        let from = scn.ops[..op].iter().rposition(|o| o.is_step()).map(|p| p + 1).unwrap_or(0);
+        let mut letters = String::new();
+        let mut moved = false;
+        for o in &scn.ops[from..op] {
+            match o {
+                SOp::Retime => if !letters.contains('T') { letters.push('T') },
+                SOp::Hide => if letters.contains('H') { letters = letters.replace('H', "") } else { letters.push('H') },
+                SOp::Reorder => if !letters.contains('O') { letters.push('O') },
+                SOp::Jump { .. } => moved = true,
+                _ => {}
+            }
+        }
+        (letters, moved)
+    };
+    let tally = tasks.par_iter().map(|&(r, i)| {
+        let scn = &scn_of(&roots[r], i);
+        if scn.reuses_a_state() { return SeqTally::default() }
+        let (mut t, out) = seq_run(scn, |out| out.steps.iter().any(|s| {
+            s.result == StepResult::Ok && !s.cancelled && s.judged && s.reused && !s.changed && !quiet_before(scn, s.op).0.is_empty()
+        }));
+        if let Some(out) = out {
+            for s in out.steps.iter().filter(|s| s.result == StepResult::Ok && !s.cancelled && s.judged) {
+                let (letters, moved) = quiet_before(scn, s.op);
+                let class = format!("finished:{}:{}:source-{}:reports-changed={}",
+                    if s.reused { "connection-used-before" } else { "first-exchange-of-the-connection" },
+                    if s.changed { "client-moved" } else { "client-state-and-data-as-before" },
+                    if moved { "moved" } else { "state-unmoved" },
+                    if letters.is_empty() { "-" } else { letters.as_str() });
+                *t.outcomes.entry(class).or_insert(0) += 1;
+            }
+        }
+        t
+    }).reduce(SeqTally::default, |mut a, b| { a.absorb(b); a });
+    sp.set("sequences_left_out(source would reuse a state)", json!(tasks.len() as u64 - tally.evals));
+    sp.set("gaps", json!(gaps.iter().map(|g| if g.is_empty() { "-".to_string() } else { g.iter().map(|o| o.render()).collect::<Vec<_>>().join(".") }).collect::<Vec<_>>()));
+    sp.set("client_ops", json!(["SA (step on the connection as it is)", "RA.SA (voluntary reconnect to the same Server::run, then step)"]));
+    sp.set("version_configs(civ, limit)", json!(versions));
+    sp.set("timing_triples", json!(TIMINGS.iter().map(|t| format!("{t:?}")).collect::<Vec<_>>()));
+    sp.set("root_timing", json!(format!("{:?}", timing_of(SEQ_ROOT_SET.wrapping_add(SHIFT) % TIMINGS.len() as u8))));
+    let total = tally.evals;
+    seq_report(ctx, &sp, tally, 1000, &if thorough { format!("{total} sequences: every one of 3 rounds over {} gaps x 2 client ops from {three_roots} roots and every one of 4 rounds over {} gaps x 2 client ops from 6 roots ({four_n}), every one executed", gaps.len(), quick_gaps.len()) }
+        else { format!("{total} sequences of 3 rounds over {} gaps x 2 client ops from {three_roots} roots, every one executed", gaps.len()) });
 }
 
 // ======================================================================
@@ -3811,7 +4013,7 @@ fn main() {
     // the sequence spaces (small, enumerated in full; they do not share the
     // wall-clock safety net of the history exploration either)
     let only = std::env::var("C06_ONLY").ok();   // measuring aid: run one sequence space only
-    for (name, f) in [("dist", distance_space as fn(&Ctx, bool)), ("pair", pair_space), ("fail", failure_space), ("cancel", cancel_space)] {
+    for (name, f) in [("dist", distance_space as fn(&Ctx, bool)), ("pair", pair_space), ("fail", failure_space), ("cancel", cancel_space), ("unmoved", unmoved_space)] {
         if only.as_deref().is_some_and(|o| o != name) { continue }
         let t = WallInstant::now();
         f(&ctx, thorough);
